@@ -131,6 +131,20 @@ def gen_world(rng):
 	ng = rng.randint(1, 6)
 	gt = [rng.randrange(nt) for _ in range(ng)]
 	dists = np.array([rng.choice(GRID) for _ in range(ng)], dtype='f4')
+	if rng.random() < 0.2:
+		# thresholds not monotone along the lineage: the overall closest genome sits below the conflict's common ancestor but is only
+		# covered by a taxon ABOVE it, while two farther genomes match in sibling taxa (the primary match must be one of those)
+		model = [TX.T(0, None, rng.choice([0.5, 0.75, 0.9]), True), None, None, None, None]
+		model[1] = TX.T(1, model[0], rng.choice([None, 0.0625]), rng.random() < 0.8)
+		model[2] = TX.T(2, model[1], rng.choice([0.25, 0.4]), True)
+		model[3] = TX.T(3, model[1], rng.choice([0.25, 0.4]), True)
+		model[4] = TX.T(4, model[1], rng.choice([None, 0.0625, 0.125]), True)
+		if rng.random() < 0.5:
+			model.append(TX.T(5, None, 0.25, True))
+		gt = [rng.choice([4, 1]), 2, 3] + ([rng.randrange(len(model))] if rng.random() < 0.5 else [])
+		dists = np.array([0.2, rng.choice([0.2, 0.25]), 0.25] + ([rng.choice(GRID)] if len(gt) == 4 else []), dtype='f4')
+		order = list(range(len(gt))); rng.shuffle(order)
+		gt, dists = [gt[j] for j in order], dists[order]
 	return model, gt, dists
 
 
@@ -210,6 +224,10 @@ def run_classify(sh, ctx):
 		ctx.case(('cls', w['parents'], w['thresholds'], gt, w['dists']), nontrivial=nm >= 2,
 		         sample=dict(w, expected_prediction=exp['pred'], matched=sorted(exp['matched'])) if wi < 2 and nm >= 2 else None)
 		ctx.count(f'matched_taxa:{min(nm, 3)}{"+" if nm >= 3 else ""}')
+		if exp['pred'] is not None:
+			cj = int(np.argmin(dists)); mc = TX.matching(model[gt[cj]], float(dists[cj]))
+			if mc is not None and TX.strictly_below(model[exp['pred']], mc):
+				ctx.count('closest_genome_matched_only_above_the_prediction')
 		if exp['has_error']:
 			ctx.count('worlds_without_common_ancestor')
 		if wi % 4 == 1 and len(gt) > 1:
